@@ -1619,6 +1619,8 @@ class Segments:
         # Mode indicator overhead
         if version > 0:  # QR Code
             overhead += len(self.modes) * 4
+            # Hanzi segments carry a 4 bit subset indicator after the mode indicator
+            overhead += self.modes.count(consts.MODE_HANZI) * 4
         elif version > consts.VERSION_M1:  # Micro QR Code (M1 has no mode indicator)
             overhead += len(self.modes) * (version + 3)
         # Char count indicator overhead
